@@ -130,8 +130,9 @@ func (pc *c33PC) SetDeadline(time.Time) error      { return errors.New("c33: uni
 func (pc *c33PC) SetReadDeadline(time.Time) error  { return errors.New("c33: unimplemented") }
 func (pc *c33PC) SetWriteDeadline(time.Time) error { return errors.New("c33: unimplemented") }
 
-// c33Mem hands out loaded receive streams. One connection pair per process,
-// renewed every c33StreamsPerConn streams and after any failure.
+// c33Mem hands out loaded receive streams. One connection pair per process
+// (stream credit is replenished as streams are closed), opened before the
+// exploration starts and renewed only after a failure.
 type c33Mem struct {
 	mu       sync.Mutex
 	e1, e2   *quic.Endpoint
@@ -140,9 +141,8 @@ type c33Mem struct {
 	streams  int64
 	conns    int64
 	failures []string
+	slowest  time.Duration
 }
-
-const c33StreamsPerConn = 2000
 
 var c33Streams c33Mem
 
@@ -171,7 +171,7 @@ func (m *c33Mem) open() error {
 			Certificates:       []tls.Certificate{cert},
 			NextProtos:         []string{"h3"},
 		},
-		MaxUniRemoteStreams: 256,
+		MaxUniRemoteStreams: 1 << 40, // never wait for stream credit
 		KeepAlivePeriod:     2 * time.Second,
 	}
 	nw := &c33Net{conns: map[netip.AddrPort]*c33PC{}}
@@ -224,9 +224,15 @@ func (m *c33Mem) try(data []byte) (*quic.Stream, error) {
 func (m *c33Mem) loaded(data []byte) *quic.Stream {
 	m.mu.Lock()
 	defer m.mu.Unlock()
+	t0 := time.Now()
+	defer func() {
+		if d := time.Since(t0); d > m.slowest {
+			m.slowest = d
+		}
+	}()
 	var last error
 	for attempt := 0; attempt < 3; attempt++ {
-		if m.c1 == nil || m.used >= c33StreamsPerConn {
+		if m.c1 == nil {
 			if err := m.open(); err != nil {
 				last = err
 				m.shut()
@@ -505,6 +511,64 @@ func c33Ops(thorough bool) []vsched.Op {
 	return ops
 }
 
+// Free-running (-race) pass only: vsched.RunFree abandons an execution whose
+// threads have not finished after 100 ms and goes on to the next program; a
+// call that was merely slow (it waits for QUIC goroutines of a loaded machine)
+// would then still be running instrumented code while the next execution
+// resets and rebuilds the package state, which the detector would report
+// although no two calls of ONE execution raced. In that mode every program
+// body therefore first waits until all calls of the earlier executions have
+// returned (2 s at most: a call that panicked never returns).
+var c33Flight struct {
+	mu       sync.Mutex
+	expected int // calls the executions started so far will make
+	done     int // calls that have returned
+}
+
+func c33GuardOps(ops []vsched.Op) []vsched.Op {
+	if !vsched.Free {
+		return ops
+	}
+	for i := range ops {
+		run := ops[i].Run
+		ops[i].Run = func() string {
+			defer func() {
+				c33Flight.mu.Lock()
+				c33Flight.done++
+				c33Flight.mu.Unlock()
+			}()
+			return run()
+		}
+	}
+	return ops
+}
+
+func c33GuardProgs(progs []vsched.Program, seq int) []vsched.Program {
+	if !vsched.Free {
+		return progs
+	}
+	for i := range progs {
+		body := progs[i].Body
+		calls := 2 * (seq + 1)
+		if strings.HasPrefix(progs[i].Name, "solo/") {
+			calls = seq + 1
+		}
+		progs[i].Body = func() func(vsched.Outcome) vsched.Verdict {
+			for limit := time.Now().Add(2 * time.Second); ; time.Sleep(200 * time.Microsecond) {
+				c33Flight.mu.Lock()
+				if c33Flight.done >= c33Flight.expected || time.Now().After(limit) {
+					c33Flight.expected = c33Flight.done + calls
+					c33Flight.mu.Unlock()
+					break
+				}
+				c33Flight.mu.Unlock()
+			}
+			return body()
+		}
+	}
+	return progs
+}
+
 func TestVerif_C33_globals(t *testing.T) {
 	vx.Run(t, "C33", func(c *vx.Ctx) {
 		bounds := vx.Pick(c, []int{1}, []int{2})
@@ -514,7 +578,12 @@ func TestVerif_C33_globals(t *testing.T) {
 		if !c.Quick() {
 			seq = 1
 		}
-		progs := vsched.PairPrograms("C33", zzResetGlobals, c33Ops(!c.Quick()), seq)
+		progs := c33GuardProgs(vsched.PairPrograms("C33", zzResetGlobals, c33GuardOps(c33Ops(!c.Quick())), seq), seq)
+		// open the connection pair now: no handshake inside an execution
+		if q := c33Streams.loaded([]byte{0}); q != nil {
+			io.ReadAll(q)
+			q.CloseRead()
+		}
 		c.Note("globals_programs", len(progs))
 		c.Note("written_package_level_variables", zzWrittenGlobals)
 		vsched.RunBounds(c, "globals", progs, bounds)
@@ -522,6 +591,7 @@ func TestVerif_C33_globals(t *testing.T) {
 		fails := c33Streams.failures
 		c.Note("globals_quic_streams", c33Streams.streams)
 		c.Note("globals_quic_connections", c33Streams.conns)
+		c.Note("globals_quic_slowest_stream_setup_ms", c33Streams.slowest.Milliseconds())
 		c33Streams.shut()
 		c33Streams.mu.Unlock()
 		if len(fails) > 0 {
